@@ -40,6 +40,8 @@ def seeds(seed=0):
     out.append(("sd-unicast-flag-clear", _sd(10, [("offer", s, 1, 1, 3, 0, (v4,), ())], unicast=False)))
     out.append(("two-messages", rc.enc_someip(s, 2, 3, 4, 1, 0x01, 0, b"ab") + _sd(11, [("find", s, 1, 1, 3, 0, (), ())])))
     out.append(("sd-stop-subscribe", _sd(12, [("subscribe", s, 1, 1, 0, 5, (v4,), ())])))
+    # two SD messages in one datagram: damaging the first must not cost the second
+    out.append(("two-sd-messages", _sd(13, [("offer", s, 2, 1, 3, 0, (v4,), ())]) + _sd(14, [("offer", s, 1, 1, 3, 0, (v4,), ())])))
     return out
 
 
